@@ -15,9 +15,11 @@ import Nq.Lemmas.Pop3Sim
 import Nq.Lemmas.Pop3Walk8
 import Nq.Lemmas.SmtpCmdPop3
 import Nq.Lemmas.Pop3Popup
+import Nq.Lemmas.Pop3FaultL2
 
 namespace Nq.Props.C19
 open Nq Nq.Pop3 Nq.Pop3Ref Nq.Lemmas.Pop3 Nq.Lemmas.Pop3Heap
+open Nq.Pop3F Nq.Lemmas.Pop3F
 
 /-! ### RETR and TOP: what a client decodes is the stored message -/
 
@@ -836,6 +838,170 @@ theorem C19_session_simulation_partial (uid now : Nat) (fs : FS) (levs : List LE
     obtain ⟨⟨l, rest, a, b⟩, _, c⟩ := w9 hq
     exact ⟨⟨l, rest, a, by simpa [verbIs] using b⟩, c⟩
 
+
+/-! ### Session 4: system calls that fail on files that exist (model `Nq.Pop3F`, file `Nq/Pop3Fault.lean`)
+
+stat() failing in the start-up scan and in getlist(), open_read() and read() failing in RETR/TOP, unlink() and
+rename() failing in QUIT — with whatever errno (the code never looks at it). The harness makes exactly these
+calls fail in the real program (F lines) and the driver compares `mainF` byte for byte. -/
+
+/-- **Without faults the model with faults is the model all the theorems above speak about.** -/
+theorem C19_fault_free (uid : Nat) (havedir : Bool) (now : Nat) (fs : FS) (evs : List Ev) :
+    mainF {} uid havedir now fs (evs.map lift) = Pop3.main uid havedir now fs evs :=
+  mainF_none uid havedir now fs evs
+
+/-- **A failing read never yields a message that looks complete (1).** blast() with read number `k` failing, for
+every limit, file and k: either the read was never needed (the limit of TOP was reached before, or k lies beyond
+the read that returns 0) and the client gets the complete blast() — which `C19_retr`/`C19_top` decode to the stored
+lines —, or the process died (`die()` = `_exit(0)` without flushing) and what reached the client is a PROPER prefix
+of it. -/
+theorem C19_fault_read (limit : Nat) (data : Bytes) (k : Nat) :
+    ((blastF limit data k).2 = false → (blastF limit data k).1 = blast limit data) ∧
+    ((blastF limit data k).2 = true → ∃ t, t ≠ [] ∧ (blastF limit data k).1 ++ t = blast limit data) :=
+  blastF_spec limit data k
+
+/-- **A failing read never yields a message that looks complete (2).** What the client got before the server died
+contains no terminating lone-dot line: an RFC 1939 client reading it to the end of the stream has no complete
+multi-line response (`popDecode = none`). There is no "truncated message followed by CR LF . CR LF". -/
+theorem C19_fault_read_never_complete (limit : Nat) (data : Bytes) (k : Nat) (h : (blastF limit data k).2 = true) :
+    popDecode (blastF limit data k).1 = none :=
+  blastF_died_undecodable limit data k h
+
+/-- **RETR/TOP of an accepted message under faults: exactly three outcomes, none of them silent.** The session
+state is unchanged, and the reply is (a) `-ERR unable to open that message` and the session goes on — the open was
+made to fail, or the file is gone —, or (b) `+OK` and the complete blast() of the file, or (c) a read failed:
+`+OK`, a proper prefix `p` of that blast() that does not decode, and the process exits (code 0) — the connection
+closes. -/
+theorem C19_fault_retr (F : Faults) (s : Sess) (ao : Bool) (ar : Option Nat) (verb arg : Bytes) (i : Nat) (m : Msg)
+    (hv : verbIs vRetr verb = true ∨ verbIs vTop verb = true) (hn : msgno s arg = .ok i) (hm : s.msgs[i]? = some m) :
+    (execF F s ao ar verb arg).1.1 = s ∧
+    (((execF F s ao ar verb arg).1.2.1 = errOpen ∧ (execF F s ao ar verb arg).1.2.2 = none ∧
+        (ao = true ∨ fsFind s.fs m.fn = none)) ∨
+     (∃ f, fsFind s.fs m.fn = some f ∧ ao = false ∧
+        (execF F s ao ar verb arg).1.2.1 = okLine ++ blast (limitFor verb arg) f.data ∧
+        (execF F s ao ar verb arg).1.2.2 = none) ∨
+     (∃ f p t, fsFind s.fs m.fn = some f ∧ ao = false ∧ ar ≠ none ∧
+        (execF F s ao ar verb arg).1.2.1 = okLine ++ p ∧ t ≠ [] ∧ p ++ t = blast (limitFor verb arg) f.data ∧
+        popDecode p = none ∧ (execF F s ao ar verb arg).1.2.2 = some 0)) := by
+  have hq : verbIs vQuit verb = false := by
+    rcases hv with h | h
+    · have h' : lower verb = vRetr := by simpa [verbIs] using h
+      simp [verbIs, h', vRetr, vQuit]
+    · have h' : lower verb = vTop := by simpa [verbIs] using h
+      simp [verbIs, h', vTop, vQuit]
+  unfold execF
+  simp only [hq, Bool.false_eq_true, if_false, hv, if_true, hn, hm]
+  by_cases hao : ao = true
+  · simp [hao]
+  · have hao' : ao = false := by simpa using hao
+    simp only [hao', Bool.false_eq_true, if_false]
+    cases hf : fsFind s.fs m.fn with
+    | none => simp
+    | some f =>
+      cases ar with
+      | none => simp
+      | some k =>
+        cases hd : (blastF (limitFor verb arg) f.data k).2 with
+        | false =>
+          refine ⟨rfl, Or.inr (Or.inl ⟨f, rfl, trivial, ?_, ?_⟩)⟩
+          · show okLine ++ (blastF (limitFor verb arg) f.data k).1 = _
+            rw [(blastF_spec _ _ _).1 hd]
+          · show (if (blastF (limitFor verb arg) f.data k).2 = true then some 0 else none) = none
+            rw [hd]; rfl
+        | true =>
+          obtain ⟨t, ht, he⟩ := (blastF_spec _ _ _).2 hd
+          refine ⟨rfl, Or.inr (Or.inr ⟨f, (blastF (limitFor verb arg) f.data k).1, t, rfl, trivial, by simp, rfl, ht, he,
+            blastF_died_undecodable _ _ _ hd, ?_⟩)⟩
+          show (if (blastF (limitFor verb arg) f.data k).2 = true then some 0 else none) = some 0
+          rw [hd]; rfl
+
+/-- **No command but QUIT touches the maildir, whatever fails** (in particular a session that dies in the middle
+of a message has deleted and renamed nothing). -/
+theorem C19_fault_only_quit_touches (F : Faults) (s : Sess) (ao : Bool) (ar : Option Nat) (verb arg : Bytes)
+    (hq : verbIs vQuit verb = false) : (execF F s ao ar verb arg).1.1.fs = s.fs :=
+  execF_fs F s ao ar verb arg hq
+
+/-- **Deletions only of marked messages, also when some unlink or rename fails.** `C19_quit_keeps` for every set of
+failing unlink() and rename() calls: a file that is neither a marked message nor an unmarked message of new/ nor
+the new name of one is still there after QUIT, unchanged. -/
+theorem C19_fault_quit_keeps (F : Faults) (s : Sess) (ao : Bool) (ar : Option Nat) (verb arg p : Bytes) (f : File)
+    (hq : verbIs vQuit verb = true) (hf : fsFind s.fs p = some f)
+    (h1 : ∀ m ∈ s.msgs, m.fn = p → m.del = false ∧ (m.fn.take 4 == newSl) = false)
+    (h2 : ∀ m ∈ s.msgs, m.del = false → (m.fn.take 4 == newSl) = true → seenName m.fn ≠ p) :
+    fsFind (execF F s ao ar verb arg).1.1.fs p = some f := by
+  simp only [execF, hq, if_true]
+  rw [quitLoopF_eff]
+  have hsub := (effective_sublist F.u F.n s.msgs 0 0).subset
+  exact quit_keeps _ s.fs [] p f hf (fun m hm => h1 m (hsub hm)) (fun m hm => h2 m (hsub hm))
+
+/-- **new → cur renames never lose a message, and a failing unlink never removes one.** For every set of failing
+calls, an unmarked message `new/x` whose file `f` is there is after QUIT either still `new/x` (its rename failed)
+or `cur/x:2,` with `new/x` gone — the same file in both cases. (Names unique, `cur/x:2,` not a marked message: as
+in `C19_quit_renames`.) -/
+theorem C19_fault_quit_never_loses (F : Faults) (s : Sess) (ao : Bool) (ar : Option Nat) (verb arg : Bytes) (m : Msg) (f : File)
+    (hq : verbIs vQuit verb = true) (hm : m ∈ s.msgs) (hd : m.del = false) (hn : m.fn.take 4 = newSl)
+    (hf : fsFind s.fs m.fn = some f) (hu : (s.msgs.map (·.fn)).Nodup)
+    (h2 : ∀ x ∈ s.msgs, x.fn = seenName m.fn → x.del = false) :
+    fsFind (execF F s ao ar verb arg).1.1.fs m.fn = some f ∨
+    (fsFind (execF F s ao ar verb arg).1.1.fs (seenName m.fn) = some { f with path := seenName m.fn } ∧
+     fsFind (execF F s ao ar verb arg).1.1.fs m.fn = none) := by
+  simp only [execF, hq, if_true]
+  rw [quitLoopF_eff]
+  have hsl := effective_sublist F.u F.n s.msgs 0 0
+  have hsub := hsl.subset
+  by_cases hin : m ∈ effective F.u F.n 0 0 s.msgs
+  · right
+    exact quit_renames _ s.fs [] m f hin hd hn hf ((hsl.map (·.fn)).nodup hu) (fun x hx => h2 x (hsub hx))
+  · left
+    refine quit_keeps _ s.fs [] m.fn f hf ?_ ?_
+    · intro x hx hxe
+      have hxm : x = m := nodup_fn_inj s.msgs hu x m (hsub hx) hm hxe
+      exact absurd (hxm ▸ hx) hin
+    · intro x _ _ _
+      exact seenName_ne_new x.fn m.fn hn
+
+/-- **A marked message whose unlink fails is not lost either**: after QUIT it is gone or still exactly there. -/
+theorem C19_fault_quit_marked (F : Faults) (s : Sess) (ao : Bool) (ar : Option Nat) (verb arg : Bytes) (m : Msg) (f : File)
+    (hq : verbIs vQuit verb = true) (hm : m ∈ s.msgs) (hd : m.del = true) (hf : fsFind s.fs m.fn = some f)
+    (hu : (s.msgs.map (·.fn)).Nodup) (h2 : ∀ x ∈ s.msgs, seenName x.fn ≠ m.fn) :
+    fsFind (execF F s ao ar verb arg).1.1.fs m.fn = none ∨ fsFind (execF F s ao ar verb arg).1.1.fs m.fn = some f := by
+  simp only [execF, hq, if_true]
+  rw [quitLoopF_eff]
+  have hsub := (effective_sublist F.u F.n s.msgs 0 0).subset
+  by_cases hin : m ∈ effective F.u F.n 0 0 s.msgs
+  · left
+    exact quit_removes _ s.fs [] m hin hd (fun x hx => h2 x (hsub hx))
+  · right
+    refine quit_keeps _ s.fs [] m.fn f hf ?_ ?_
+    · intro x hx hxe
+      have hxm : x = m := nodup_fn_inj s.msgs hu x m (hsub hx) hm hxe
+      exact absurd (hxm ▸ hx) hin
+    · intro x hx _ _
+      exact h2 x (hsub hx)
+
+/-- **Start-up under failing stat() calls.** A file whose stat fails in the scan (`A`) is treated exactly like a
+file that is too young: it gets no number in this session (and QUIT will not touch it) — so `C19_startup_order`,
+`C19_session_numbering` … apply to the maildir `hideA A now fs`. A message whose second stat, in getlist(), fails
+(`G`) is announced with size 0 — the code's `m[i].size = 0` (finding C19-F1 in notes/C19.md); every other size is
+the length of the file. -/
+theorem C19_fault_startup (A G : List Bytes) (now : Nat) (fs : FS) :
+    getlistF A G now fs =
+      (getlist now (hideA A now fs)).map (fun m => if G.contains m.fn then { m with size := 0 } else m) :=
+  getlistF_eq A G now fs
+
+
+/-- **Listed sizes are not truncated.** Whatever `st_size` a message has (any natural number: `big` hands over the
+sizes of files the driver does not materialise, e.g. 4 GiB + 1234), the start-up table records it, and the size
+field LIST / LIST n print for it is its full decimal representation: it reads back (`decVal`) as exactly that
+number — not that number modulo 2^32. -/
+theorem C19_list_size_unbounded (big : List (Bytes × Nat)) (now : Nat) (fs : FS) (i : Nat) (m : Msg) (n : Nat)
+    (hm : (getlist now fs)[i]? = some m) (hb : big.lookup m.fn = some n) :
+    (getlistS big now fs)[i]? = some { m with size := n } ∧
+    listLine i { m with size := n } false = fmtNat (i + 1) ++ [SP] ++ fmtNat n ++ [CR, LF] ∧
+    decVal (fmtNat n) = n := by
+  refine ⟨?_, by simp [listLine], Nq.Lemmas.Pop3Fmt.decVal_fmtNat n⟩
+  simp [getlistS, hm, hb]
+
 /-! ### Non-vacuity (bytes written out: 10 = LF, 13 = CR, 46 = '.', 97 = 'a', 32 = SP) -/
 
 /-- "a LF LF . LF . . LF b" — header, blank, a lone dot, a dot-dot line, unterminated last line -/
@@ -906,5 +1072,38 @@ example : ∀ l, LEv.line l ∈ exLevs → ∀ c ∈ l, c ≠ NUL ∧ c ≠ LF :
   intro l hl
   simp only [exLevs, List.mem_cons, LEv.line.injEq, List.not_mem_nil, or_false, reduceCtorEq, false_or] at hl
   rcases hl with rfl | rfl | rfl <;> decide
+
+/-! ### Non-vacuity of the session-4 theorems -/
+
+/-- "a LF b LF c": read 1 (the one that returns 0) fails after both complete lines were put: nothing of them had
+been flushed (the 1024-byte buffer was not full), the client gets nothing after "+OK" and the server is dead -/
+example : blastF 0 [97, 10, 98, 10, 99] 1 = ([], true) := by decide
+/-- read 2 does not exist for a 5-byte file: the complete message -/
+example : blastF 0 [97, 10, 98, 10, 99] 2 = (blast 0 [97, 10, 98, 10, 99], false) := by decide
+/-- TOP … 0 (limit 1) of "a LF LF b LF": the loop ends at the first body line, read 1 is never needed -/
+example : (blastF 1 [97, 10, 10, 98, 10] 1).2 = false := by decide
+/-- the 1024-byte buffer: 600 pending + a put of 500 flushes the 600; a put of 9300 leaves 1108 → nothing pending -/
+example : putStep 600 500 = 500 ∧ putStep 0 9300 = 0 ∧ putStep 0 (8192 + 500) = 500 ∧ putStep 1000 24 = 1024 := by decide
+/-- QUIT with messages 1 (cur/b, marked) and 2 (new/a): unlink 0 fails → cur/b stays, one -ERR line, new/a is renamed;
+rename 0 fails → new/a stays -/
+example : (execF { u := [0] } ⟨[⟨[99, 117, 114, 47, 98], 1, true⟩, ⟨[110, 101, 119, 47, 97], 1, false⟩], 1,
+      [⟨[110, 101, 119, 47, 97], [120], 1, 1⟩, ⟨[99, 117, 114, 47, 98], [121], 1, 1⟩]⟩ false none vQuit []).1.1.fs
+    = [⟨[99, 117, 114, 47, 97, 58, 50, 44], [120], 1, 1⟩, ⟨[99, 117, 114, 47, 98], [121], 1, 1⟩] := by decide
+example : (execF { n := [0] } ⟨[⟨[99, 117, 114, 47, 98], 1, true⟩, ⟨[110, 101, 119, 47, 97], 1, false⟩], 1,
+      [⟨[110, 101, 119, 47, 97], [120], 1, 1⟩, ⟨[99, 117, 114, 47, 98], [121], 1, 1⟩]⟩ false none vQuit []).1.1.fs
+    = [⟨[110, 101, 119, 47, 97], [120], 1, 1⟩] := by decide
+/-- the maildir of `exFs` when the scan cannot stat new/c and getlist() cannot stat cur/b: two messages, b with size 0 -/
+example : getlistF [[110, 101, 119, 47, 99]] [[99, 117, 114, 47, 98]] 10 exFs
+    = [⟨[99, 117, 114, 47, 98], 0, false⟩, ⟨[110, 101, 119, 47, 97], 1, false⟩] := by decide
+/-- RETR 1 with the next open failing: the arm is used up, the session goes on; with read 0 failing: the server exits -/
+example : (execF {} ⟨[⟨[110, 101, 119, 47, 97], 1, false⟩], 0, [⟨[110, 101, 119, 47, 97], [120], 1, 1⟩]⟩ true (some 3) vRetr [49]).2
+    = (false, some 3) := by decide
+example : (execF {} ⟨[⟨[110, 101, 119, 47, 97], 1, false⟩], 0, [⟨[110, 101, 119, 47, 97], [120], 1, 1⟩]⟩ false (some 0) vRetr [49]).1.2.2
+    = some 0 := by decide
+
+/-- a message of 4 GiB + 1234 bytes: "4294968530" reads back as that number (and not as 1234) -/
+example : decVal [52, 50, 57, 52, 57, 54, 56, 53, 51, 48] = 4294968530 := by decide
+example : (getlistS [([110, 101, 119, 47, 97], 4294968530)] 10 [⟨[110, 101, 119, 47, 97], [122], 9, 0⟩])
+    = [⟨[110, 101, 119, 47, 97], 4294968530, false⟩] := by decide
 
 end Nq.Props.C19
